@@ -137,7 +137,8 @@ def own_helpers(cls, entry):
     """inline small synchronous own-class helpers (extracted blocks), never the public lifecycle methods"""
 
     def flt(f, ct):
-        return f.cls is cls and not f.is_async and f is not entry and f.name not in ("accept", "shutdown", "adopt", "execute", "_adopt_services")
+        # own coroutine helpers are inlined too: in this class they are only ever awaited in place
+        return f.cls is cls and f is not entry and f.name not in ("accept", "shutdown", "adopt", "execute", "_adopt_services")
 
     return flt
 
@@ -226,8 +227,46 @@ def sweep(chk):
             ok = False
         elif evs[wt[0]][1][2] or evs[wt[0]][1][3]:
             chk.notes.append("shutdown waits with a timeout")
+    # every OTHER event shutdown() waits for without a timeout must be signalled from inside the runtime (by the sweep,
+    # before the runners stop).  An event that only accept() sets after MetaRunner.run() has returned makes shutdown wait
+    # for the end of accept -- but shutdown may be running on a thread accept has to join first (asyncio.run joins the
+    # default executor: asyncio.to_thread(runner.shutdown); trio.to_thread likewise), so neither ever returns
+    for o in outs:
+        for e in o.path.events:
+            if e[0] == "call" and e[1][1][0] == "attr" and e[1][1][2] == "wait" and e[1][1][1][0] == "attr" and e[1][1][1][1] == SELF and e[1][1][1] != ISDOWN:
+                chk.count()
+                if e[1][2] or any(k == "timeout" for k, _v in e[1][3]):
+                    continue
+                ev_attr = e[1][1][1][2]
+                setters = set()
+                for fs in cls.methods.values():
+                    for f in fs:
+                        for n in ast.walk(f.node):
+                            if isinstance(n, ast.Call) and isinstance(n.func, ast.Attribute) and n.func.attr == "set" and util.dotted(n.func.value) == "self." + ev_attr:
+                                setters.add(f.name)
+                inside = {fi.name} | {f.name for fs in cls.methods.values() for f in fs if own_helpers(cls, fi)(f, None) and f.name in {x.func.attr for x in ast.walk(fi.node) if isinstance(x, ast.Call) and isinstance(x.func, ast.Attribute)}}
+                if not (setters & inside):
+                    chk.bad(
+                        rule,
+                        sd.qual,
+                        "shutdown also waits (without timeout) for self.%s, which is only set in %s -- not by the sweep inside the runtime: when shutdown() runs on a thread that accept() must join before it can return (asyncio.to_thread / trio.to_thread from a payload), both block forever and the exclusivity guard is never released"
+                        % (ev_attr, sorted(setters - {"__init__"}) or "nothing"),
+                        node=sd.node,
+                        stmt="shutdown-waits-for-accept %s" % ev_attr,
+                    )
+                    ok = False
     # the sweep tests the flag on every iteration and sleeps a bounded time
     loop = util.the_loop(fi) or next((n for n in ast.walk(fi.node) if isinstance(n, ast.While)), None)
+    loop_fi = fi
+    if loop is None:
+        # the polling loop may live in an own coroutine helper the sweep awaits
+        for n in ast.walk(fi.node):
+            if isinstance(n, ast.Await) and isinstance(n.value, ast.Call) and isinstance(n.value.func, ast.Attribute) and util.dotted(n.value.func.value) == "self":
+                h = prog.lookup_method(cls, n.value.func.attr)
+                if h is not None and h.is_async:
+                    hl = util.the_loop(h) or next((x for x in ast.walk(h.node) if isinstance(x, ast.While)), None)
+                    if hl is not None:
+                        loop, loop_fi = hl, h
     if loop is None or not isinstance(loop, ast.While):
         chk.undecided(rule, name, "the sweep has no while loop", node=fi.node)
         ok = False
@@ -250,7 +289,7 @@ def sweep(chk):
                 return False
             return None
 
-        outs = Interp(prog, fi, decide=decide2, unroll=2).run()
+        outs = Interp(prog, fi, decide=decide2, unroll=2, inline=own_helpers(cls, fi)).run()
         DELAY = ("attr", SELF, "accept_delay")
         for o in outs:
             sl = [e[1] for e in o.path.events if e[0] == "call" and e[1][1] == SLEEP]
@@ -272,7 +311,7 @@ def sweep(chk):
                 ok = False
             break
         # every polling cycle passes an awaited trio checkpoint -- on every path, for every accept_delay
-        body_it = Interp(prog, fi, unroll=1, inline=own_helpers(cls, fi))
+        body_it = Interp(prog, loop_fi, unroll=1, inline=own_helpers(cls, loop_fi))
         for o in body_it.exec_block(loop.body, Path()):
             chk.count()
             if o.kind not in ("normal", "continue"):
@@ -294,7 +333,7 @@ def sweep(chk):
                 return True
             return None
 
-        for o in Interp(prog, fi, decide=decide3, unroll=1).run():
+        for o in Interp(prog, fi, decide=decide3, unroll=1, inline=own_helpers(cls, fi)).run():
             if o.kind == "return" and o.value != NONE:
                 chk.bad(rule, name, "the sweep returns %s on the requested exit: an orphaned return value makes accept() raise instead of returning" % show(o.value), node=fi.node, stmt="sweep-returns-value")
                 ok = False
